@@ -182,6 +182,27 @@ func (c *Ctx) formatTable(fn *ssa.Function, perColumn string) (string, ssa.Instr
 					if lf.blk != nil && anyDominates(emptyEdges(lf.fn, p), lf.blk) {
 						guard = "when-empty"
 					}
+					if lf.blk == nil {
+						// selected inline: the constant enters the merge from a block reached only when the list is empty
+						ees := emptyEdges(lf.fn, p)
+						for ph := range seenPhi {
+							phi := ph.(*ssa.Phi)
+							for i, e := range phi.Edges {
+								if e != l || i >= len(phi.Block().Preds) {
+									continue
+								}
+								pb := phi.Block().Preds[i]
+								if anyDominates(ees, pb) {
+									guard = "when-empty"
+								}
+								for _, ee := range ees {
+									if ee.from == pb && ee.to() == phi.Block() {
+										guard = "when-empty"
+									}
+								}
+							}
+						}
+					}
 				}
 				desc = append(desc, sprintf("const%d/%s", k, guard))
 				continue
